@@ -86,9 +86,22 @@ Teardown == /\ Step /\ up /\ up' = FALSE /\ act' = A("Teardown", 0, "")
             /\ UNCHANGED <<ep, flag, nextId, held, full, hq, rq, deliv, accs, sent, run>>
 Connect == /\ Step /\ ~up /\ ep < MaxConn /\ up' = TRUE /\ ep' = ep + 1 /\ flag' = FALSE /\ act' = A("Connect", 0, "")
            /\ UNCHANGED <<nextId, held, full, hq, rq, deliv, accs, sent, run>>
+\* The message loop's enqueue times out (addHandlerMessage : 2133 after MessageChannelTimeout): the item in its hands is DROPPED and the
+\* loop goes on.  With the application still stuck, every message of the receive queue is examined and dropped the same way.  Before the
+\* repair of F43 a dropped tx / update had been counted (nextId' = the id after the last one examined) although it never reached the
+\* handlers; since the repair the id is taken back when the hand-over fails, so the following ids are rejected and nextId stays where the
+\* handlers are.  An accept examined this way still sets the flag (its notification is lost, the connection is authenticated).
+\* Stall is not part of Next: Spec is the client with an application that returns within the time-out; SpecStall adds it (and leaves
+\* Ready out, so that the ids counted are 1 .. nextId - 1).
+Stall == /\ Step /\ full /\ held = "in"
+         /\ LET s == ExamineAll(S0, rq) IN flag' = s.flag /\ run' = s.run
+         /\ rq' = <<>> /\ act' = A("Stall", 0, "") /\ UNCHANGED <<ep, up, nextId, held, full, hq, deliv, accs, sent>>
 Next == \/ Accept \/ Hold \/ Flood \/ Release \/ Teardown \/ Connect \/ (\E n \in 1..3 : Ready(n))
         \/ \E kind \in {"tip", "tx", "upd"}, id \in 1..3 : Notify(kind, IF kind = "tip" THEN 0 ELSE id)
 Spec == Init /\ [][Next]_vars
+NextStall == \/ Accept \/ Hold \/ Flood \/ Release \/ Teardown \/ Connect \/ Stall
+             \/ \E kind \in {"tip", "tx", "upd"}, id \in 1..3 : Notify(kind, IF kind = "tip" THEN 0 ELSE id)
+SpecStall == Init /\ [][NextStall]_vars
 -----------------------------------------------------------------------------
 \* C18: a transaction or update reaches the handlers only if the service had authenticated itself, before it sent it, on the
 \* connection it sent it on
@@ -101,6 +114,11 @@ AcceptOnce == AcceptOnceP(deliv \o hq, accs)
 \* the application sees what the client let through in the order the service sent it (C17 across the two queues)
 InOrderP(d) == \A i, j \in 1..Len(d) : i < j => d[i].n < d[j].n
 InOrder == InOrderP(deliv \o hq)
+\* every id the client has counted reached the handlers (C17: the reported next id is the last delivered id plus one).  Holds for Spec
+\* without Ready, and for SpecStall since the repair of F43 (with nextId' = s.nextId in Stall, the code before the repair, TLC finds
+\* Accept, Hold, tip, Flood, tx 1, Stall)
+CountedAreDeliveredP(d, nx) == \A i \in 1..(nx - 1) : \E j \in 1..Len(d) : d[j].k \in {"tx", "upd"} /\ d[j].id = i
+CountedAreDelivered == CountedAreDeliveredP(deliv \o hq, nextId)
 \* the flag is set only while the current session's accept has been examined
 FlagMeansAccepted == flag => \E i \in 1..Len(deliv \o hq) : (deliv \o hq)[i].k = "acc" /\ (deliv \o hq)[i].e = ep
 =============================================================================
